@@ -495,6 +495,26 @@ func coWriteRule(c *Ctx, rule, role string, tf *types.Var, req coReq, reqOK bool
 				}
 				reqBlocks[r.Block()] = true
 			}
+			if !ok && req.Guard != nil {
+				// taken before the repositioning, on the side of a test of the
+				// guard where there is something to update: `if x.g != nil { … }`
+				for e := range nilGuardEdges(fn, req.Guard) {
+					test := e[0]
+					if !dominatesBlock(test, t.Block()) {
+						continue
+					}
+					for _, side := range test.Succs {
+						if side == e[1] {
+							continue
+						}
+						for _, r := range reqs {
+							if dominatesBlock(side, r.Block()) {
+								ok = true
+							}
+						}
+					}
+				}
+			}
 			// … and not only on some path: unless the action was taken before the
 			// cursor moved, no successful exit is reachable from the assignment
 			// around the required action (edges on which the object that carries the
